@@ -52,7 +52,7 @@ CONTRACTS = [
     ),
     Contract(
         M + "__getattr__",
-        props=["C15"],
+        props=["C15", "C14"],
         lets={"tid": "self.get_ident()"},
         requires={"config_key": "item in self.config"},
         ensures={
